@@ -922,7 +922,7 @@ def StrictLog (it : Item) : Prop :=
     Strict p d ∧ Strict q e
 
 /- Full statement: decodeChangeLog it = some l → encodeChangeLog l = some it (so that l.Hash() = Keccak(wire)).
-   FALSE for the code as it is (changelog_payload_refuted_*).  Exact guard: `StrictLog`. -/
+   FALSE for the code as it is (payload_refuted_*).  Exact guard: `StrictLog`. -/
 theorem changeLog_reencode_partial (l : CLog) (it : Item) (h : decodeChangeLog it = some l) (hs : StrictLog it) :
     encodeChangeLog l = some it := by
   unfold decodeChangeLog at h
@@ -959,39 +959,39 @@ macro "logNe" : tactic => `(tactic|
    exact absurd (encode_list_inj (by decide) (by decide) h) (by decide)))
 
 /-- finding `changelog-payload/decodeHash`: StorageRootLog whose NewVal is the one-byte string 0x01 -/
-theorem changelog_payload_refuted_decodeHash : LogRefuted (logItem 3 (.bytes [1]) (.list [])) := by
+theorem payload_refuted_decodeHash : LogRefuted (logItem 3 (.bytes [1]) (.list [])) := by
   refine ⟨_, _, rfl, rfl, ?_⟩
   logNe
 
 /-- finding `changelog-payload/decodeAddress`: VoteForLog with a 21-byte address -/
-theorem changelog_payload_refuted_decodeAddress : LogRefuted (logItem 17 (.bytes (List.replicate 21 9)) (.list [])) := by
+theorem payload_refuted_decodeAddress : LogRefuted (logItem 17 (.bytes (List.replicate 21 9)) (.list [])) := by
   refine ⟨_, _, rfl, rfl, ?_⟩
   logNe
 
 /-- finding `changelog-payload/decodeEmptyInterface`: BalanceLog whose Extra is 0x80 (and 0x05) instead of 0xC0 -/
-theorem changelog_payload_refuted_decodeEmptyInterface :
+theorem payload_refuted_decodeEmptyInterface :
     LogRefuted (logItem 1 (.bytes [9]) (.bytes [])) ∧ LogRefuted (logItem 1 (.bytes [9]) (.bytes [5])) := by
   refine ⟨⟨_, _, rfl, rfl, ?_⟩, ⟨_, _, rfl, rfl, ?_⟩⟩ <;> logNe
 
 /-- finding `changelog-payload/decodeSigners`: SignerLog whose NewVal is 0x80 -/
-theorem changelog_payload_refuted_decodeSigners : LogRefuted (logItem 19 (.bytes []) (.list [])) := by
+theorem payload_refuted_decodeSigners : LogRefuted (logItem 19 (.bytes []) (.list [])) := by
   refine ⟨_, _, rfl, rfl, ?_⟩
   logNe
 
 /-- finding `changelog-payload/decodeAsset`: AssetCodeLog whose NewVal is 0x80 -/
-theorem changelog_payload_refuted_decodeAsset :
+theorem payload_refuted_decodeAsset :
     LogRefuted (logItem 4 (.bytes []) (.bytes (List.replicate 32 1))) := by
   refine ⟨_, _, rfl, rfl, ?_⟩
   logNe
 
 /-- finding `changelog-payload/decodeEquity`: EquityLog whose NewVal is the single byte 0x05 -/
-theorem changelog_payload_refuted_decodeEquity :
+theorem payload_refuted_decodeEquity :
     LogRefuted (logItem 10 (.bytes [5]) (.bytes (List.replicate 32 1))) := by
   refine ⟨_, _, rfl, rfl, ?_⟩
   logNe
 
 /-- finding `changelog-payload/decodeProfileChangeLogExtra`: AssetCodeStateLog whose Extra is 0x80 -/
-theorem changelog_payload_refuted_decodeProfileChangeLogExtra :
+theorem payload_refuted_decodeProfileChangeLogExtra :
     LogRefuted (logItem 5 (.bytes [0x61]) (.bytes [])) := by
   refine ⟨_, _, rfl, rfl, ?_⟩
   logNe
